@@ -677,7 +677,12 @@ class Exec(HeapMixin, ExprMixin, CallMixin, StmtMixin):
                     self.assume(term)
             menv = dict(env)
             if fr is not None:
-                menv['caller'] = VOld(dict(fr.locals), None)
+                cl = dict(fr.locals)
+                if getattr(self, 'top_env', None) is not None:
+                    cl['old'] = VOld(self.top_env, self.pre_state)
+                menv['caller'] = VOld(cl, None)
+                if c.kind == 'abstract':
+                    env = menv
             for tag, preds in c.monitor.items():
                 for pred in preds:
                     for label, term in self.spec_terms(pred, menv):
